@@ -1,6 +1,6 @@
 use alloc::vec::Vec;
 
-use hashbrown::HashMap;
+use hashbrown::{HashMap, HashSet};
 use p3_field::Field;
 
 use super::analysis::AluKey;
@@ -14,6 +14,8 @@ use crate::types::WitnessId;
 pub(super) struct Deduplicator {
     rewrite: HashMap<WitnessId, WitnessId>,
     seen: HashMap<AluKey, WitnessId>,
+    /// Witnesses referenced (read or written) by an op that has already been kept.
+    referenced: HashSet<WitnessId>,
 }
 
 impl Deduplicator {
@@ -21,6 +23,7 @@ impl Deduplicator {
         Self {
             rewrite: HashMap::new(),
             seen: HashMap::new(),
+            referenced: HashSet::new(),
         }
     }
 
@@ -36,16 +39,54 @@ impl Deduplicator {
 
             if let Some((dup_out, canonical)) = self.detect_duplicate(&op) {
                 let root = canonical.resolve(&self.rewrite);
-                if dup_out != root {
-                    self.rewrite.insert(dup_out, root);
+                if dup_out == root {
+                    continue;
                 }
-                continue;
+                // Ops kept so far are not rewritten retroactively. If one of them already
+                // references the duplicate's output (a public input, a constant or an earlier
+                // result connected to it), redirecting that witness would detach it from this
+                // op's relation: keep the op, it then acts as the equality check.
+                if !self.referenced.contains(&dup_out) {
+                    self.rewrite.insert(dup_out, root);
+                    continue;
+                }
             }
 
+            self.mark_referenced(&op);
             result.push(op);
         }
 
         (result, self.rewrite)
+    }
+
+    fn mark_referenced<F: Field>(&mut self, op: &Op<F>) {
+        match op {
+            Op::Const { out, .. } | Op::Public { out, .. } => {
+                self.referenced.insert(*out);
+            }
+            Op::Alu {
+                a,
+                b,
+                c,
+                out,
+                intermediate_out,
+                ..
+            } => {
+                self.referenced.extend([*a, *b, *out]);
+                self.referenced.extend(c.iter().chain(intermediate_out.iter()));
+            }
+            Op::Hint {
+                inputs, outputs, ..
+            } => {
+                self.referenced.extend(inputs.iter().chain(outputs.iter()));
+            }
+            Op::NonPrimitiveOpWithExecutor {
+                inputs, outputs, ..
+            } => {
+                self.referenced
+                    .extend(inputs.iter().flatten().chain(outputs.iter().flatten()));
+            }
+        }
     }
 
     /// Returns `Some((duplicate_out, canonical_out))` when `op` duplicates an earlier ALU.
